@@ -80,8 +80,8 @@ Qed.
 
 (* DTD with a byte-order mark: U+FEFF <!--License--><!ENTITY a 'b'> *)
 Example C02_license_dtd_example :
-  let s := map N.of_nat [65279; 60; 33; 45; 45; 76; 105; 99; 101; 110; 115; 101; 45; 45; 62;
-                         60; 33; 69; 78; 84; 73; 84; 89; 32; 97; 32; 39; 98; 39; 62] in
+  let s := [65279; 60; 33; 45; 45; 76; 105; 99; 101; 110; 115; 101; 45; 45; 62;
+            60; 33; 69; 78; 84; 73; 84; 89; 32; 97; 32; 39; 98; 39; 62]%N in
   dtd_start s = 1 /\
   (exists x, omatch rx_dtd_comment s 1 = Some x /\
      contains s_License (comment_val_of VDtd (slice s 1 (m_end x))) = true) /\
@@ -108,7 +108,7 @@ Theorem C02_unescape_po : forall items : list po_item,
 Proof. exact unescape_po. Qed.
 
 (* the item  a\\nb  (escaped backslash, then the letter n) is  a\nb , not a newline;
-   the second item is  \"\t  *)
+   the second item is an escaped quote followed by \t *)
 Example C02_unescape_po_example :
   let items := [[PPlain 97; PEsc 92; PPlain 110; PPlain 98]; [PEsc 34; PEsc 116]]%N in
   forallb (forallb po_tok_legal) items = true /\
